@@ -8,10 +8,12 @@
 (* properties C13 (optimum = smallest mean validation error; statistics stored under their slot) and C18 (schedule independence).   *)
 EXTENDS Integers, Sequences, FiniteSets, TLC
 
-CONSTANTS MaxTrials, Folds, Grid, Vals
+CONSTANTS MaxTrials, Folds, Grid, Vals,
+          K          \* 0: one hyper-parameter, the grid points are its values;  K > 0: two hyper-parameters, the grid point p stands for
+                     \* the pair (p \div K, p % K) and the distance is the Euclidean one (compared squared: the same order)
 None == -1
 
-VARIABLES params,   \* Seq of parameter values (1-D grid points), one per trial
+VARIABLES params,   \* Seq of parameter values (grid points), one per trial
           vals,     \* Seq (per trial) of Seq (per fold) of Vals \cup {None}
           batch0,   \* number of trials of the earlier batches (the bound a task may pass to closest_trial)
           opt,      \* observation: optimum_trial() (0-based)
@@ -27,9 +29,11 @@ OptimumOf(ps, vs) ==
     IF C = {} THEN 0
     ELSE (CHOOSE t \in C : \A u \in C : SumOf(vs, t) < SumOf(vs, u) \/ (SumOf(vs, t) = SumOf(vs, u) /\ t <= u)) - 1
 Abs(x) == IF x < 0 THEN -x ELSE x
+Dist(a, b) == IF K = 0 THEN Abs(a - b)
+              ELSE ((a \div K) - (b \div K)) * ((a \div K) - (b \div K)) + ((a % K) - (b % K)) * ((a % K) - (b % K))
 ClosestOf(ps, p, m) ==
     IF m = 0 THEN 0
-    ELSE (CHOOSE t \in 1..m : \A u \in 1..m : Abs(ps[t] - p) < Abs(ps[u] - p) \/ (Abs(ps[t] - p) = Abs(ps[u] - p) /\ t <= u)) - 1
+    ELSE (CHOOSE t \in 1..m : \A u \in 1..m : Dist(ps[t], p) < Dist(ps[u], p) \/ (Dist(ps[t], p) = Dist(ps[u], p) /\ t <= u)) - 1
 ClosestTable(ps) == [p \in Grid |-> [m \in 0..Len(ps) |-> ClosestOf(ps, p, m)]]
 
 Init == /\ params = <<>> /\ vals = <<>> /\ batch0 = 0 /\ opt = 0 /\ closest = ClosestTable(<<>>)
